@@ -611,6 +611,7 @@ def lookup(name: str, db: LocationDatabase) -> Union[GroupInfo, LocationInfo]:
         if group_key == key:
             return group
 
+    for group in db.values():
         try:
             return lookup_in_group(name, group)
         except KeyError:
